@@ -349,7 +349,7 @@ def run_check(fam, tier, seed, replay=None):
     }
     if "leanchecker" in proof:
         evidence["coverage"]["leanchecker"] = proof["leanchecker"]
-    if not replay:
+    if not replay and not os.environ.get("VERIF_NO_EVIDENCE"):   # (set when run on a patched scratch tree)
         os.makedirs(os.path.join(VERIF, "evidence"), exist_ok=True)
         with open(os.path.join(VERIF, "evidence", prop + ".json"), "w") as f:
             json.dump(evidence, f, indent=1, default=str)
